@@ -16,7 +16,10 @@ the text of property C04:
   ``AssertionError``, ...) or a call that does not return within ``LIMIT`` seconds is a
   violation;
 * every returned value is rendered to text and to wire again; a non-library exception
-  there is a violation of ``C04.rerender``.
+  there is a violation of ``C04.rerender``.  Cases carrying ``"deep": True`` (the
+  field-extreme generator) are additionally rendered with ``to_digestable``, without origin /
+  unrelativized, as a message with the unverified TSIG kept, and record by record; their
+  ``sig`` carries the record type.
 """
 
 from __future__ import annotations
@@ -229,17 +232,21 @@ def _rr_message_deep(m, origin):
         if special is not None:
             rds.extend(special)
 
-    def each(fn):
-        def run():
-            for rd in rds:
-                fn(rd)
-        return run
-
-    out.append(("rdata.to_text", each(lambda rd: rd.to_text(origin=origin, relativize=True))))
-    out.append(("rdata.to_text", each(lambda rd: rd.to_text())))
-    out.append(("rdata.to_wire", each(lambda rd: rd.to_wire(origin=origin))))
-    out.append(("rdata.to_digestable", each(lambda rd: rd.to_digestable(origin=origin))))
+    for rd in rds:
+        # the record type is part of the label (hence of the sig): a rendering defect of one
+        # type is one finding, distinct from that of another type
+        tn = _type_text(rd.rdtype)
+        out.append((f"rdata[{tn}].to_text", lambda rd=rd: (rd.to_text(origin=origin, relativize=True), rd.to_text())))
+        out.append((f"rdata[{tn}].to_wire", lambda rd=rd: rd.to_wire(origin=origin)))
+        out.append((f"rdata[{tn}].to_digestable", lambda rd=rd: rd.to_digestable(origin=origin)))
     return out
+
+
+def _type_text(t):
+    try:
+        return dns.rdatatype.to_text(t)
+    except Exception:
+        return f"TYPE{int(t)}"
 
 
 def _msg_to_wire(m, origin):
@@ -515,11 +522,17 @@ def judge(entry: str, args: dict):
                      {"entry": entry, "op": label, "class": "hang"})
                 )
             elif st == "exc" and not isinstance(v2, dns.exception.DNSException):
+                sig = {"entry": entry, "op": label, "exc": exc_name(v2), "site": site_of(v2)}
+                if args.get("deep") and "rdtype" in args:
+                    # field-extreme records: the failing site is often a shared helper
+                    # (IntEnum._check_value, struct.pack): the type tells the findings apart
+                    sig["rdtype"] = _type_text(args["rdtype"])
                 findings.append(
                     (
                         "C04.rerender",
-                        f"value returned by {entry} cannot be rendered: {label} raised {exc_name(v2)}: {short(v2, 80)}",
-                        {"entry": entry, "op": label, "exc": exc_name(v2), "site": site_of(v2)},
+                        f"value returned by {entry} cannot be rendered: {label} raised {exc_name(v2)}: {short(v2, 80)}"
+                        + (f" [{args['field']}]" if args.get("field") else ""),
+                        sig,
                     )
                 )
     return findings, info
